@@ -28,7 +28,7 @@ LEVEL_TEXT = ("Theorems over Config.v/UserData.v with the option tables generate
               "option the value of its last command-line occurrence, else the merged configuration-file value, else the built-in default "
               "(Booleans through their --x/--no-x pairs); append options keep file order followed by command-line order; files later in the "
               "search order override earlier ones; paths/outfiles of a file are resolved relative to it; -D defines override file user data; "
-              "parse_user_define on the documented forms; getters: converted value / default / ValueError.  Model compared with "
+              "the run's tag expression is --tags over the file's tags over default_tags; parse_user_define on the documented forms; getters: converted value / default / ValueError.  Model compared with "
               "Configuration(args) built in scratch directories.")
 LEVEL_NOTE = "Trusted: Coq kernel, generated tables, configparser/tomllib/argparse tokenisation."
 EXHAUSTIVE = False
